@@ -22,6 +22,7 @@ var (
 	fNoDecs  = flag.Bool("sim.nodecs", false, "replay: ignore the recorded decisions and schedule from the case's sched_seed")
 	fFull    = flag.Bool("sim.full", false, "include case, decisions and log in the result")
 	fGenOnly = flag.Bool("sim.gen", false, "only generate and print the case")
+	fSolo    = flag.Bool("sim.solo", false, "marker: this process is a solo re-execution spawned by a property's PostRun")
 )
 
 // ReplayFile is what a violation is reported with.
@@ -70,6 +71,17 @@ func strip(r *Result, c *Case) {
 	r.Switches = nil
 }
 
+// postRun gives a property the chance to finish its verdict outside the bubble (e.g. by running
+// an instance alone in a fresh process).
+func postRun(c *Case, r *Result) {
+	if *fSolo {
+		return
+	}
+	if p, ok := registry[c.Prop].(interface{ PostRun(*Case, *Result) }); ok {
+		p.PostRun(c, r)
+	}
+}
+
 func TestSim(t *testing.T) {
 	if os.Getenv("VERIF_WINDEBUG") != "" {
 		window.EnableDebug = true
@@ -95,6 +107,7 @@ func TestSim(t *testing.T) {
 		}
 		emit(w, map[string]any{"start": rf.Case.Seed})
 		r := RunCase(t, rf.Case, decs, !*fLenient && decs != nil, *fFull)
+		postRun(rf.Case, r)
 		strip(r, rf.Case)
 		emit(w, r)
 		return
@@ -112,6 +125,7 @@ func TestSim(t *testing.T) {
 		}
 		emit(w, map[string]any{"start": seed})
 		r := RunCase(t, c, nil, false, *fFull)
+		postRun(c.normalise(), r)
 		strip(r, c.normalise())
 		emit(w, r)
 	}
